@@ -85,8 +85,9 @@ class Sensor(Asset):
                  name = None,
                  data_capacity = float('inf'),
                  value = 0):
-        super().__init__(name, value)
-
+        # Attributes are set before calling the base constructor because
+        # it initializes the Asset immediately when the simulation is
+        # already in progress.
         assert data_capacity >= 1, 'Data capacity cannot be less than 1.'
         self._data_capacity = data_capacity
         self._on_sense = []
@@ -99,6 +100,7 @@ class Sensor(Asset):
         self.data = {}
         for p in self._probes:
             self.data[p] = []
+        super().__init__(name, value)
 
     def initialize(self, env):
         super().initialize(env)
@@ -190,9 +192,8 @@ class PeriodicSensor(Sensor):
                  name = None,
                  data_capacity = float('inf'),
                  value = 0):
-        super().__init__(probes, name, data_capacity, value)
-
         self._interval = interval
+        super().__init__(probes, name, data_capacity, value)
 
     def initialize(self, env):
         super().initialize(env)
